@@ -2027,6 +2027,13 @@ func (cs *State) addVote(vote *types.Vote, peerID p2p.ID) (added bool, err error
 			cs.Logger.Debug("precommit vote came in after commit timeout and has been ignored", "vote", vote)
 			return
 		}
+		if cs.LastCommit == nil {
+			// There is no last commit at the chain's initial height (updateToState leaves
+			// LastCommit nil): a "precommit for the previous height" is ignored there.
+			// (*VoteSet)(nil).AddVote panics.
+			cs.Logger.Debug("precommit vote for the height before the initial height has been ignored", "vote", vote)
+			return
+		}
 
 		added, err = cs.LastCommit.AddVote(vote)
 		if !added {
